@@ -1103,7 +1103,16 @@ def check_property(prop, tier, registry, seed=0):
     exec_fail = []
     for hook in spec.get('extra', []):
         try:
-            res = hook(dict(repo=REPO, cache=CACHE, tier=tier, results=results, seed=seed))
+            henv = dict(repo=REPO, cache=CACHE, tier=tier, results=results, seed=seed)
+            res = hook(henv)
+            if not res.get('ok'):
+                # execution checks run real networks in real time on a shared machine: a failure is believed only if it happens twice
+                res2 = hook(henv)
+                if res2.get('ok'):
+                    res = dict(res2, note='a first run reported %d failure(s) that did not reproduce on an immediate second run (timing); not counted' % len(res.get('failed', [])),
+                               unreproduced=res.get('failed', [])[:3])
+                else:
+                    res = res2
             extra_checks.append(dict(res, failed=res.get('failed', [])[:5]))
             if not res.get('ok') and prop in res.get('props', [prop]):
                 exec_fail.append(res)
